@@ -1720,7 +1720,7 @@ func MarshalNLRI(value bgp.NLRI) (*api.NLRI, error) {
 		}
 	case *bgp.SRPolicyNLRI:
 		nlri.Nlri = &api.NLRI_SrPolicy{SrPolicy: &api.SRPolicyNLRI{
-			Length:        uint32(v.Length),
+			Length:        uint32(v.Length) * 8, // the API field is in bits (nlri.proto), the native one in octets
 			Distinguisher: v.Distinguisher,
 			Color:         v.Color,
 			Endpoint:      v.Endpoint,
